@@ -109,6 +109,19 @@ def run_sequences(ctx, V, n_random, n_ops):
         seed = ctx.seed * 1000003 + i
         W, ops, rec = cw.random_run(random.Random(seed), n_ops, fault_rate=0.4 if i % 2 else 0.25)
         batch.append(('random:seed=%d' % seed, ops, rec, W))
+    # API routes (parent.wire / parent.wires vs the constructor calls they wrap): world B joins the batch judged against model and Spec
+    n_route = max(20, n_random // 4); route_calls = 0
+    for i in range(n_route):
+        seed = ctx.seed * 1000003 + 500000 + i
+        A, B, opsA, opsB, recB, problems = cw.route_run(random.Random(seed), min(n_ops, 30))
+        route_calls += len(opsA)
+        for o in opsA: ctx.count(('route', o[0], len(A.objs), len(A.wires)))
+        batch.append(('routes:seed=%d' % seed, opsB, recB, B))
+        for pb in problems[:1]:
+            pb = dict(pb); pb['sequence'] = 'routes:seed=%d' % seed
+            pb['replay_hint'] = "c11_world.World().apply(call) for each entry of 'calls' ('Wires', parent, prefix, num, width) = objs[parent].wires('n<prefix>', num, width)"
+            V.spec_fail.append(pb)
+    ctx.notes['route_sequences'] = {'sequences': n_route, 'factory_calls': route_calls}
     n_raise = 0
     CH = 100
     broken = []
